@@ -137,7 +137,8 @@ ThSeq(S) == IF S = {} THEN <<>> ELSE LET x == CHOOSE y \in S : TRUE IN <<x>> \o 
 FMQuick5 == << FM({}, 60), FM({}, 19), FM({"dup"}, 60), FM({"qcfail"}, 60), FM({"supp"}, 20) >>
 InstQuickFilter == [maxlen |-> 3, minqs |-> {0, 20}, samples |-> 2, fm |-> FMQuick5, cv |-> << <<"A", "C">>, <<"C", None>>, <<"N", "T">> >>, th |-> THJoint]
 InstQuickThresh == [maxlen |-> 4, minqs |-> {20}, samples |-> 2, fm |-> Plain, cv |-> CVSingle3, th |-> THQuick]
-InstThoroughFilter == [maxlen |-> 3, minqs |-> {0, 20, 30}, samples |-> 2, fm |-> FMThorough, cv |-> CVFilterT, th |-> THJoint]
+InstThoroughFilter == [maxlen |-> 2, minqs |-> {0, 20, 30}, samples |-> 2, fm |-> FMThorough, cv |-> CVFilterT, th |-> THJoint]
+InstThoroughFilterDeep == [maxlen |-> 3, minqs |-> {0, 20, 30}, samples |-> 2, fm |-> FMQuick, cv |-> SubSeq(CVFilter, 1, 4), th |-> THJoint]
 InstThoroughThresh == [maxlen |-> 4, minqs |-> {20}, samples |-> 2, fm |-> Plain, cv |-> CVSingle, th |-> THThorough]
 InstThoroughThresh3 == [maxlen |-> 5, minqs |-> {20}, samples |-> 3, fm |-> Plain, cv |-> SubSeq(CVSingle, 1, 3), th |-> THQuick]
 InstTiny == [maxlen |-> 2, minqs |-> {0, 20, 30}, samples |-> 2, fm |-> FMQuick, cv |-> SubSeq(CVFilter, 1, 3), th |-> THJoint]
